@@ -593,6 +593,9 @@ struct DepsChain {
       if (C(30) == 0) len = 5000 + C(100000);       // long path
       deps.push_back(PathOfLen(len, idx)); idx++;
     }
+    // a path right at the record-size limit (2^19-1 bytes with padding and checksum): the writer
+    // must refuse exactly what the loader would refuse
+    if (C(25) == 1) { deps.push_back(PathOfLen(524270 + C(30), idx)); idx++; n["path_at_record_limit"]++; }
     // uniqueness
     std::set<std::string> seen;
     for (auto* v : {&outs, &deps}) for (auto& p : *v) { while (seen.count(p)) p += "u"; seen.insert(p); }
